@@ -271,9 +271,14 @@ class SymTD(object):
         return "SymTD(%r us)" % (self.us,)
 
 
+def _zone_modelled():
+    e = E.ENGINE
+    return e is not None and getattr(e, "tz", "utc") != "utc"
+
+
 def timedelta(days=0, seconds=0, microseconds=0, milliseconds=0, minutes=0, hours=0, weeks=0):
     args = (days, seconds, microseconds, milliseconds, minutes, hours, weeks)
-    if not any(isinstance(a, (SymNum, SymFrac)) for a in args):
+    if not any(isinstance(a, (SymNum, SymFrac)) for a in args) and not _zone_modelled():
         return _dt.timedelta(days=days, seconds=seconds, microseconds=microseconds, milliseconds=milliseconds, minutes=minutes, hours=hours, weeks=weeks)
     us = 0
     for a, unit in ((days, DAY_US), (seconds, 10**6), (microseconds, 1), (milliseconds, 1000), (minutes, 60 * 10**6), (hours, 3600 * 10**6), (weeks, 7 * DAY_US)):
@@ -577,9 +582,17 @@ def tz_offset_us(us, local):
     if isinstance(tz, (tuple, list)) and tz[0] == "real":
         # one real transition of a named zone: offsets and instant concrete, the queried instants symbolic
         _, tr_us, o1_us, o2_us = tz
-        before = (us - o1_us) < tr_us if local else us < tr_us
-        b = before if isinstance(before, bool) else e.branch(before)
-        return o1_us if b else o2_us
+        if not local:
+            before = us < tr_us
+            return o1_us if (before if isinstance(before, bool) else e.branch(before)) else o2_us
+        # naive local -> UTC like mktime with fold=0: the first valid reading; a non-existent time (gap) keeps the old offset
+        b1 = (us - o1_us) < tr_us
+        if b1 if isinstance(b1, bool) else e.branch(b1):
+            return o1_us
+        b2 = (us - o2_us) >= tr_us
+        if b2 if isinstance(b2, bool) else e.branch(b2):
+            return o2_us
+        return o1_us
     st = e.pm.get("tz_state")
     if st is None:
         q = 15 * 60 * 10**6
@@ -593,13 +606,17 @@ def tz_offset_us(us, local):
         e.pm["tz_state"] = st
     if tz == "const":
         return st["o1"]
-    # one transition at UTC instant tr: offset o1 before, o2 after (gap/fold: first matching rule like mktime)
-    if local:
-        before = (us - st["o1"]) < st["tr"]
-    else:
+    # one transition at UTC instant tr: offset o1 before, o2 after (gap/fold resolved like mktime with fold=0)
+    if not local:
         before = us < st["tr"]
-    b = before if isinstance(before, bool) else e.branch(before)
-    return st["o1"] if b else st["o2"]
+        return st["o1"] if (before if isinstance(before, bool) else e.branch(before)) else st["o2"]
+    b1 = (us - st["o1"]) < st["tr"]
+    if b1 if isinstance(b1, bool) else e.branch(b1):
+        return st["o1"]
+    b2 = (us - st["o2"]) >= st["tr"]
+    if b2 if isinstance(b2, bool) else e.branch(b2):
+        return st["o2"]
+    return st["o1"]
 
 
 def fromtimestamp(s):
@@ -666,8 +683,9 @@ class datetime_factory(metaclass=_Meta):
 
     def __new__(cls, year, month=None, day=None, hour=0, minute=0, second=0, microsecond=0, tzinfo=None):
         args = (year, month, day, hour, minute, second, microsecond)
-        if not any(isinstance(a, SymNum) for a in args):
+        if not any(isinstance(a, SymNum) for a in args) and not _zone_modelled():
             return _dt.datetime(year, month, day, hour, minute, second, microsecond)
+        # (under a modelled local zone even concrete instants are model objects, so that timestamp() consults the model)
         return SymDT.from_fields(*args)
 
     @staticmethod
